@@ -927,7 +927,7 @@ class Merger:
             else:
                 # The RHS document root is a Scalar value
                 merge_performed = self._insert_scalar(
-                    insert_at, target_node, lhs_proc, rhs)
+                    node_coord.path, target_node, lhs_proc, rhs)
 
         self.logger.debug(
             "Completed merge operation, resulting in document:",
